@@ -40,7 +40,7 @@ def shards(tier):
 
 
 def timeout(tier):
-    return 300 if tier == "quick" else 1800
+    return 900 if tier == "quick" else 5400
 
 
 def classify(text):
